@@ -537,17 +537,23 @@ Error:
             continue;
         }
         struct video_s* video = self->video + i;
-        camera_stop(video->source.camera);
         // Wind down whatever was started for this stream, or acquire_stop and
         // acquire_abort would wait for it for good. A running source thread
         // stops itself (and then its filter and sink) once it sees the flag;
         // refusing writes releases it if it is blocked on a full queue.
         video->source.is_stopping = 1;
         channel_accept_writes(&video->sink.in, 0);
-        if (!video->source.is_running) {
+        if (video->source.is_running) {
+            // The source thread stops its camera when it leaves its loop. A
+            // stop from here could reach the driver while that one is still in
+            // progress: two stops for one start. As in acquire_abort, only
+            // release a camera that waits for a trigger.
+            camera_execute_trigger(video->source.camera);
+        } else {
             // The source thread was never launched (e.g. the camera failed to
             // start after the sink and filter threads had been created):
-            // nobody else will tell those two to stop.
+            // nobody else will stop the camera or tell those two to stop.
+            camera_stop(video->source.camera);
             video->filter.is_stopping = 1;
             video->sink.is_stopping = 1;
         }
